@@ -355,6 +355,10 @@ func getPrevStandaloneSnapshot(snapPath string) (string, error) {
 func snapshotPath(c *Config, tName string, isStandalone bool) (string, string) {
 	//  skips current func, the wrapper match* and the exported Match* func
 	callerFilename := baseCaller(3)
+	// a relative caller file means the binary was built with -trimpath even when that
+	// could not be detected at start-up (test binaries carry no build settings and
+	// runtime.GOROOT() is not empty when GOROOT is exported)
+	isTrimBathBuild := isTrimBathBuild || !filepath.IsAbs(callerFilename)
 
 	dir := c.snapsDir
 	if !filepath.IsAbs(dir) && !isTrimBathBuild {
